@@ -212,6 +212,16 @@ func newWorker(id int, prog *ssa.Program, hpkg, zpkg *ssa.Package) (w *Worker, e
 		}
 		w.crossAll = *flagCrossAll
 	}
+	// os.Stdin/Stdout/Stderr: non-nil opaque files (package os is not initialised)
+	if op := prog.ImportedPackage("os"); op != nil {
+		for _, n := range []string{"Stdin", "Stdout", "Stderr"} {
+			if g, ok := op.Members[n].(*ssa.Global); ok {
+				f := new(Value)
+				*f = zero(g.Type().(*types.Pointer).Elem().(*types.Pointer).Elem())
+				*w.global(g) = f
+			}
+		}
+	}
 	// package initialisers, concretely
 	w.ex = newExplorer("init", id+1, 1, time.Now().Add(time.Hour))
 	w.path = w.newPath(nil)
